@@ -1439,6 +1439,13 @@ class Temps:
 
     def walk(self, stmts):
         for s in stmts:
+            if isinstance(s, (ast.For, ast.While, ast.If, ast.With, ast.Try)):
+                # a compound statement that assigns a variable a temporary reads (or the temporary itself): the value at the use
+                # inside it need not be the value at the definition -> the temporary is no longer inlined (use = Untranslatable)
+                inner = {n.id for n in ast.walk(s) if isinstance(n, ast.Name) and isinstance(n.ctx, (ast.Store, ast.Del))}
+                for v in list(self.t):
+                    if self.t[v] is not None and (self.reads[v] & inner or v in inner):
+                        self.t[v] = None
             s2 = self._sub(s)
             yield s2
             assigned = {n.id for n in ast.walk(s2) if isinstance(n, ast.Name) and isinstance(n.ctx, (ast.Store, ast.Del))}
@@ -1452,7 +1459,7 @@ class Temps:
     def unmatched(self, s, what):
         if (isinstance(s, ast.Assign) and len(s.targets) == 1 and isinstance(s.targets[0], ast.Name)
                 and s.targets[0].id not in self.protected and s.targets[0].id not in self.t and s.targets[0].id not in self.seen
-                and isinstance(s.value, (ast.Call, ast.BinOp, ast.Subscript, ast.Attribute)) and _pure(s.value, self.h)):
+                and isinstance(s.value, (ast.Call, ast.BinOp, ast.Subscript, ast.Attribute, ast.Name)) and _pure(s.value, self.h)):
             v = s.targets[0].id
             self.t[v] = s.value
             self.reads[v] = {n.id for n in ast.walk(s.value) if isinstance(n, ast.Name)}
@@ -2207,7 +2214,8 @@ def run(chk):
                        "correlation-index methods with default and custom tol; congruence_coefficient at ranks 2-10 (thorough 2-14) with the "
                        "returned matching certified optimal by an LP-dual certificate evaluated in Coq (and by the brute force as well at rank <= 5); "
                        "cp_permute_factors on single tensors and lists of two different "
-                       "tensors; leverage scores of random and exactly rank-deficient matrices (float64 and float32); the eight regression "
+                       "tensors, and once more through the full model with the cp_copy / cp_normalize glue (weights of every sign; zero weights "
+                       "in the tensor passed alone, in a listed tensor, in the reference; arguments must stay untouched); leverage scores of random and exactly rank-deficient matrices (float64 and float32); the eight regression "
                        "metrics over every axis (+None, +1 invalid) of a grid of shapes.  distinct key = (entry point, shapes, options, "
                        "stream, permutation); non-trivial = rank >= 2 resp. more than one entry")
     for b in broken:
@@ -2222,9 +2230,12 @@ def run(chk):
                        "dual certificates: the column potentials come from a Hungarian algorithm in the harness (untrusted data); Coq recomputes the row "
                        "potentials and the duality gap on the matrix rounded to 2^-80 and accepts gap <= 1e-9 * rank (theorem: value within 1e-9 of the optimum)",
                        "sqrt in the executed model = floor(sqrt(x * 2^200)) / 2^100 (Z.sqrt); numpy's sqrt is compared with it at 1e-9",
-                       "factor matrices have no exactly-zero column (the code rejects them) and at least one row and column"]
+                       "factor matrices have no exactly-zero column (the code rejects them) and at least one row and column",
+                       "cp_normalize inside cp_permute_factors is C04's model (Model/Transforms.v); its column norms are an answer tape re-checked per case "
+                       "(exact zeros allowed: a zero weight absorbed into factor 0)"]
     chk.trusted += ["ast translator regression.py -> Corr.C20.rexp (its output is compared with the hand-written model by conversion and on samples)",
-                    "symbolic executors factors.py / similarity.py / leverage_scores.py -> Model.MetricsSrc records (statement patterns; unknown statement = broken tie); "
+                    "symbolic executors factors.py / similarity.py / leverage_scores.py / cp_tensor.cp_permute_factors -> Model.MetricsSrc records (statement patterns, "
+                    "operand order of or / == / + / *, inlining of pure temporaries and one-line helpers; unknown statement = broken tie); "
                     "the meaning of a record is Model/MetricsSrc.v, equal to the model for the canonical record by Proofs/MetricsSrcTie.v"]
     chk.trusted += ["oracles: numpy sqrt (column norms), scipy.optimize.linear_sum_assignment, numpy.linalg.svd -- answers checked per case "
                     "(norm^2 = sum of squares to 1e-11; matching value = brute-force optimum over all r! matchings to 1e-9; U^T U = I, U S V^T = M to 1e-9)"]
